@@ -586,6 +586,11 @@ class C48(core.Prop):
         if first_argv is not None:
             e = expect_op(first_argv, items, aliases, False)
             oc.labels.append("route:argv")
+            if e[0] == "ok" and e[1] == "contexts/factory" and str(first_argv["value"]) not in ("raw", "boost", "thread"):
+                # the item itself stores any string, but on this route the Engine constructor USES it at once: a name that is not one
+                # of the documented factories is refused there ("Invalid context factory specified ... Please use a valid factory")
+                e = ("reject", e[1], e[2], "contexts/factory: not a documented factory name (raw, boost, thread)")
+                oc.labels.append("argv:unknown-context-factory")
             if e[0] == "invalid":
                 oc.invalid = True
                 return oc
